@@ -976,6 +976,28 @@ func (r *Run) DoDisk(d *DiskOp) {
 				r.Faults++
 			}
 		}
+	case "inflate":
+		// a long history: many large body updates of one live task (log length
+		// is part of the quantifier; big logs change allocation, GC and buffer
+		// behaviour inside ergo)
+		ts := r.M.Tasks()
+		if len(ts) == 0 {
+			break
+		}
+		id := ts[d.Pos%len(ts)].ID
+		rng := NewSplitMix(uint64(d.Pos) + 3)
+		f, err := os.OpenFile(lp, os.O_APPEND|os.O_WRONLY, 0o644)
+		if err != nil {
+			break
+		}
+		for i := 0; i < d.N; i++ {
+			t := fmtTS(r.W.Clock.Next())
+			body := bigText(rng, 60000+rng.Intn(60000))
+			data, _ := json.Marshal(map[string]any{"id": id, "body": body, "ts": t})
+			fmt.Fprintf(f, `{"type":"body","ts":%q,"data":%s}`+"\n", t, data)
+		}
+		f.Close()
+		r.W.Count.Inc("fault.inflated_log")
 	case "merge_pruned":
 		// a hand-merged log: the events that mention one pruned id (create,
 		// updates, links, tombstone) appear in a different order. The id must
